@@ -166,6 +166,13 @@ def run(ctx, model_ok):
     res = C.run_impl([{"op": "exec", "lang": "en", "text": c["text"]} for c in cases])
     for c, r in zip(cases, res):
         check_value(ctx, c, r, [{"op": "exec", "lang": "en", "text": c["text"]}])
+    # ---- literals with a k/M suffix under other language tags (the second language, tags the configuration does not know):
+    #      the amount, its suffix and the currency are read by the same tokenizer whatever the tag
+    sub = [c for c in cases if c["klass"] == "suffix"]
+    tagged = [(c, rng.choice(["tr", "de", "EN", "", "en-US", "xx"])) for c in sub[:ctx.n(150, 3000)]]
+    res = C.run_impl([{"op": "exec", "lang": t, "text": c["text"]} for c, t in tagged])
+    for (c, t), r in zip(tagged, res):
+        check_value(ctx, dict(c, klass="suffix-other-tag"), r, [{"op": "exec", "lang": t, "text": c["text"]}])
     # ---- run histories (fresh calculator each)
     flat = []
     for ops in hist_cases:
